@@ -127,6 +127,27 @@ pub fn mk_bytes(spec: &Value) -> Vec<u8> {
     if let Some(r) = spec.get("rec") {
         return mk_rec(r);
     }
+    if let Some(n) = spec.get("nest") {
+        // a well-formed list nested `depth` levels deep around the byte string `core`
+        let depth = get(n, "depth").as_u64().unwrap_or(1) as usize;
+        let mut cur = Vec::new();
+        indep::enc_str(&jbytes(get(n, "core")), &mut cur);
+        // build inside-out: total size is needed per level, so keep a running payload and prepend headers
+        let mut hdrs: Vec<Vec<u8>> = Vec::with_capacity(depth);
+        let mut len = cur.len();
+        for _ in 0..depth {
+            let mut h = Vec::new();
+            indep::enc_hdr(true, len, &mut h);
+            len += h.len();
+            hdrs.push(h);
+        }
+        let mut out = Vec::with_capacity(len);
+        for h in hdrs.iter().rev() {
+            out.extend_from_slice(h);
+        }
+        out.extend_from_slice(&cur);
+        return out;
+    }
     panic!("bad bytespec {}", spec)
 }
 
@@ -248,6 +269,11 @@ fn mk_sig_item(s: &Value, items_enc: &[u8]) -> Vec<u8> {
         "s" => indep::enc_str(&sig, &mut out),
         "l" => indep::enc_item(&Item::L(vec![Item::S(sig)]), &mut out),
         "x" => out.extend(sig),
+        "lh" => {
+            // the signature bytes under a LIST header (the string header with its kind bit flipped)
+            indep::enc_hdr(true, sig.len(), &mut out);
+            out.extend(sig);
+        }
         _ => panic!("bad sig.as"),
     }
     out
@@ -1283,7 +1309,13 @@ impl<W: Write> Exec<W> {
         let method = get(step, "m").as_str().expect("m").to_string();
         let signer = get(step, "signer").as_str().expect("signer").to_string();
         let fault = get(step, "fault").as_u64().unwrap_or(0) as usize;
-        let args = get(step, "args").clone();
+        let mut args = get(step, "args").clone();
+        if let Some(r) = args.get("raw") {
+            if r.is_object() {
+                let b = mk_bytes(r);
+                args.as_object_mut().unwrap().insert("raw".into(), bytes_json(&b));
+            }
+        }
         let Some(mut any) = self.handles.remove(&h) else {
             // handle does not exist (its construction failed): record a skipped step
             let mut m = self.base("skip", sid, i, step);
